@@ -66,6 +66,9 @@ def main():
             for c in MAP.get(t, []):
                 if c not in checks:
                     checks.append(c)
+        only = os.environ.get("BENIGN_ONLY", "").split()
+        if only:
+            checks = [c for c in checks if c in only]        # validation after a change to some checks: run just those
         res["touched"] = touched
         res["checks"] = {}
         for c in checks:
